@@ -23,13 +23,16 @@ RULE = ("the product transport (hard link, rsync stand-in, real rsync, bbcp stan
 HAS = {"Y": "HY", "M": "HM", "X": "HX", "N": "HN"}
 
 
+LOCAL_CORRUPT = "ArchiveFileCopy.select().where(ArchiveFileCopy.file == req.file, ArchiveFileCopy.node << [node.db for node in self._nodes], ArchiveFileCopy.has_file == 'X').exists()"
+
+
 def gen(ctx):
     upd = T.parse(core.REPO / "alpenhorn/daemon/update.py")
     asy = T.parse(core.REPO / "alpenhorn/io/_default_asyncs.py")
     iou = T.parse(core.REPO / "alpenhorn/io/ioutil.py")
     expect = {
         (upd, "UpdateableGroup.update_pull"): ["copy_state == 'Y'", "copy_state == 'M'", "copy_state == 'X'", "copy_state == 'N'", "not req.node_from.active", "state == 'N' or state == 'X'",
-                                                "state == 'M'", "not node_from.io.pull_ready(req.file)", "copy_state == 'X'"],
+                                                "state == 'M'", "not node_from.io.pull_ready(req.file)", "copy_state == 'X' and " + LOCAL_CORRUPT],
         (asy, "group_search_async"): ["state == 'Y' or state == 'M'", "node is not None"],
         (asy, "pull_async"): ["io.node.filecopy_state(req.file) == 'Y'", "local", "not to_dir.exists()", "not to_file.exists()", "not local", "shutil.which('bbcp') is not None",
                               "shutil.which('rsync') is not None", "req.node_from.archive == io.node.archive", "ioresult is not None", "ioresult is None", "shutil.which('rsync') is not None",
@@ -42,13 +45,13 @@ def gen(ctx):
         if got != want:
             raise T.Untranslatable(f"UNTRANSLATABLE: the tests of {q} changed: {got}")
     atoms = {"req.node_from.active": ("src_active", "bool"), "node_from.io.pull_ready(req.file)": ("src_ready", "bool"), "io.node.filecopy_state(req.file)": ("node_state", "has"),
-             "req.node_from.archive": ("src_archive", "bool"), "io.node.archive": ("dst_archive", "bool")}
+             "req.node_from.archive": ("src_archive", "bool"), "io.node.archive": ("dst_archive", "bool"), LOCAL_CORRUPT: ("local_corrupt", "bool")}
     env = {"copy_state": "has", "state": "has", "success": "bool", "check_src": "bool", "md5ok": "bool"}
     q = "UpdateableGroup.update_pull"
     d = [
         T.nth_test(upd, q, 0, env, "g_up_dst_y"), T.nth_test(upd, q, 1, env, "g_up_dst_m"), T.nth_test(upd, q, 2, env, "g_up_dst_x"), T.nth_test(upd, q, 3, env, "g_up_dst_n"),
         T.nth_test(upd, q, 4, env, "g_up_src_inactive", atoms=atoms), T.nth_test(upd, q, 5, env, "g_up_src_gone"), T.nth_test(upd, q, 6, env, "g_up_src_m"),
-        T.nth_test(upd, q, 7, env, "g_up_not_ready", atoms=atoms), T.nth_test(upd, q, 8, env, "g_up_force"),
+        T.nth_test(upd, q, 7, env, "g_up_not_ready", atoms=atoms), T.nth_test(upd, q, 8, env, "g_up_force", ["copy_state", "local_corrupt"], atoms=atoms),
         T.nth_test(asy, "group_search_async", 0, env, "g_gs_in_group"),
         T.nth_test(asy, "pull_async", 0, env, "g_pa_present", atoms=atoms),
         T.nth_test(asy, "pull_async", 7, env, "g_pa_same_arch", ["src_archive", "dst_archive"], atoms=atoms),
@@ -89,7 +92,9 @@ TOOLS = [("both", {}), ("rsync", {}), ("bbcp", {}), ("none", {}), ("real", {}), 
 
 def gen_scenario(rng):
     return {"local": rng.random() < 0.6, "route_known": rng.random() < 0.8, "src_type": rng.choice("AF"), "dst_type": rng.choice("AF"), "tools": rng.choice(TOOLS),
-            "pre": rng.choice(PRE), "src": rng.choice(SRC), "name": rng.choice(["f", "sub/f", "a/b/f"]), "size": rng.choice([0, 1, 150]), "bad_md5": rng.random() < 0.15}
+            "pre": rng.choice(PRE), "src": rng.choice(SRC), "name": rng.choice(["f", "sub/f", "a/b/f"]), "size": rng.choice([0, 1, 150]), "bad_md5": rng.random() < 0.15,
+            # other nodes of the destination group (on a host that is not running) and their copy records; the destination's own record may be released
+            "others": rng.choice([[], [], [], ["X"], ["N"], ["X", "X"], ["M"], ["X", "N"]]), "others_first": rng.random() < 0.5, "dst_wants": rng.choice("YYYN")}
 
 
 def run_scenario(ctx, base, sc):
@@ -103,6 +108,12 @@ def run_scenario(ctx, base, sc):
             "copies": [], "reqs": [{"file": 0, "from": "s", "to": "gd"}]}
     if src_has is not None:
         spec["copies"].append({"file": 0, "node": "s", "has": src_has, "wants": "Y", "disk": "absent" if sc["src"] in ("file_missing", "N") else "ok"})
+    others, dst_wants = sc.get("others", []), sc.get("dst_wants", "Y")
+    for j, st in enumerate(others):
+        spec["nodes"].append({"name": f"o{j}", "group": "gd", "stype": "A", "host": "h3"})
+    ocopies = [{"file": 0, "node": f"o{j}", "has": st, "wants": "Y", "disk": "absent"} for j, st in enumerate(others)]
+    if sc.get("others_first"):
+        spec["copies"] += ocopies
     pre = sc["pre"]
     if pre == "stray":
         spec["unregistered"] = [{"node": "d", "path": f"acq/{sc['name']}", "tag": 77, "size": 4}]
@@ -111,7 +122,9 @@ def run_scenario(ctx, base, sc):
         disk = "absent" if pre.endswith("absent") else ("corrupt" if st in ("X", "M") else "ok")
         if pre == "rec_N_file":
             disk = "ok"
-        spec["copies"].append({"file": 0, "node": "d", "has": st, "wants": "Y", "disk": disk})
+        spec["copies"].append({"file": 0, "node": "d", "has": st, "wants": dst_wants, "disk": disk})
+    if not sc.get("others_first"):
+        spec["copies"] += ocopies
     sim = daemon.Sim(base, spec)
     sim.set_tools(sc["tools"][0], **sc["tools"][1])
     if "hang" in sc["tools"][1].values():
@@ -128,7 +141,10 @@ def run_scenario(ctx, base, sc):
         pre_bytes = dst_path.read_bytes() if fod else None
         nrow = w.ArchiveFileCopy.get_or_none(file=f, node=dst_node)
         nrow = nrow.has_file if nrow else None
-        gs = nrow or "N"
+        # the group's state: healthy beats suspect beats corrupt beats absent, whatever the order of the records
+        allst = [nrow or "N"] + list(others)
+        gs = next((x for x in "YMX" if x in allst), "N")
+        released = nrow is not None and dst_wants == "N"
         src_exists = src_path.is_file()
         pre_disk = {"d": pre_bytes, "s": src_path.read_bytes() if src_exists else None}
         res = sim.iterate(dst_node.host)
@@ -218,7 +234,7 @@ def run_scenario(ctx, base, sc):
             if not present:
                 return "N"
             return "Y" if (hashlib.md5(content).hexdigest() == f.md5sum and content == pre_disk[path]) else "X"
-        dchk = HAS[verdict("d", fod)] if nrow == "M" else None
+        dchk = HAS[verdict("d", fod)] if (nrow == "M" and not released) else None
         schk = HAS[verdict("s", src_exists)] if (ss == "M" and sc["local"] and sa) else None
         term = ctup(HAS[gs], cbool(sa), HAS[ss], cbool(fod), copt(nrow and HAS[nrow], lambda x: x, "has"),
                     ctup(cbool(local), cbool(sc["route_known"]), cbool(same and hw), cbool(has_bbcp), cbool(has_rsync)), out,
@@ -243,6 +259,16 @@ def explore(ctx, n=None):
         {"local": True, "route_known": True, "src_type": "F", "dst_type": "A", "tools": ("rsync", {"rsync": "hang"}), "pre": "absent", "src": "ok", "name": "f", "size": 150, "bad_md5": False},
         {"local": False, "route_known": True, "src_type": "F", "dst_type": "A", "tools": ("bbcp", {"bbcp": "hang"}), "pre": "rec_X", "src": "ok", "name": "f", "size": 1, "bad_md5": False},
     ]
+    # F-C02c: a corrupt copy on ANOTHER node of the destination group, an unregistered file at the destination path on ours
+    corpus += [{"local": lc, "route_known": True, "src_type": "A", "dst_type": "A", "tools": ("both", {}), "pre": "stray", "src": "ok", "name": nm, "size": 150, "bad_md5": False,
+                "others": oth, "others_first": of, "dst_wants": "Y"} for lc in (True, False) for nm in ("f", "sub/f") for oth, of in ((["X"], False), (["X"], True), (["X", "N"], True))]
+    # a released suspect copy on our node (never verified: checks skip released copies) next to a corrupt copy elsewhere in the group
+    corpus += [{"local": True, "route_known": True, "src_type": "A", "dst_type": "A", "tools": ("both", {}), "pre": "rec_M", "src": "ok", "name": "f", "size": 150, "bad_md5": False,
+                "others": ["X"], "others_first": of, "dst_wants": "N"} for of in (False, True)]
+    for c in corpus:
+        c.setdefault("others", [])
+        c.setdefault("others_first", False)
+        c.setdefault("dst_wants", "Y")
     for k in range(n + len(corpus)):
         sc = corpus[k] if k < len(corpus) else gen_scenario(ctx.rng)
         term, done, t = run_scenario(ctx, base, sc)
